@@ -368,8 +368,10 @@ Step(s) ==
                      rest == Push(r, [f EXCEPT !.b = Tail(f.b)])
                  IN IF x \notin Registered(r) THEN rest
                     ELSE Push(rest, Fr("dereg", x, FALSE, 0))
-      [] f.k = "rereg" ->        \* m_mod_register() continuing after the replaced module was deregistered
-            Ret(TableAdd([r EXCEPT !.mod[m] = NewMod(m, f.a)], m), 0)
+      [] f.k = "rereg" ->        \* m_mod_register() continuing after the replaced module was deregistered: its stop callback may have
+                                 \* finalised or deregistered the context, in which nothing can be registered any more
+            IF r.ctx.st = "none" \/ r.ctx.fin THEN Ret(r, NEG)
+            ELSE Ret(TableAdd([r EXCEPT !.mod[m] = NewMod(m, f.a)], m), 0)
 
 RECURSIVE Run(_)
 Run(s0) == LET s == Settle(s0) IN
